@@ -19,7 +19,14 @@ import (
 	"golang.org/x/tools/go/ssa/ssautil"
 )
 
-const repoDir = "/repo"
+// repoDir is the tree under check. GOSX_REPO redirects it to a scratch worktree for experiments; the
+// registered commands never set it.
+var repoDir = func() string {
+	if d := os.Getenv("GOSX_REPO"); d != "" {
+		return d
+	}
+	return "/repo"
+}()
 const modPath = "github.com/basecomplextech/spec"
 
 // ---------------------------------------------------------------------------------------------
